@@ -390,3 +390,12 @@ func ifs(c bool, s string) string {
 }
 
 func msDur(ms int64) time.Duration { return time.Duration(ms) * time.Millisecond }
+
+// WriteRaw writes an arbitrary replay document to /verif/replays/<property>-<leg>.json.
+func WriteRaw(property, leg string, b []byte) string {
+	dir := filepath.Join(evidence.Root(), "replays")
+	_ = os.MkdirAll(dir, 0o755)
+	p := filepath.Join(dir, fmt.Sprintf("%s-%s.json", property, leg))
+	_ = os.WriteFile(p, b, 0o644)
+	return p
+}
